@@ -1967,10 +1967,13 @@ class Color(object):
     def hsl(self, value):
         if not isinstance(value, (tuple, list)):
             return
-        h = value[0]
+        h = value[0] / 360.0
         s = value[1]
         l = value[2]
-        self.value = Color.hsl_to_int(h, s, l, 1.0)
+        opacity = self.opacity
+        if opacity is None:
+            opacity = 1.0
+        self.value = Color.hsl_to_int(h, s, l, opacity)
 
     def distance_to(self, other):
         return Color.distance(self, other)
